@@ -54,6 +54,12 @@ def trees(tier):
     yield [("m/gone", "dangling", "../nowhere"), ("m/zz.log", "file"), ("n/gone2.log", "dangling", "nowhere"), ("n/k.log", "file"), ("o/a.log", "file")]
     yield [("0gone.log", "dangling", "nowhere"), ("a.log", "file"), ("sub/a.log", "file")]
     yield [("m/ld", "linkdir", "../real"), ("real/a.log", "file"), ("m/gone.log", "dangling", "nowhere"), ("z.log", "file")]
+    # a directory whose name is a proper prefix of sibling names continuing with a byte below '/' (space, '-', '.'), also nested
+    yield [("mail/info.log", "file"), ("mail/warn.log", "file"), ("mail b.log", "file"), ("mail-old.log", "file"), ("mail.log", "file")]
+    yield [("x/mail/info.log", "file"), ("x/mail.log", "file"), ("x/mail-old.log", "file"), ("x.log", "file"), ("x/z.log", "file")]
+    # names that end in white space (file and directory)
+    yield [("messages ", "file"), ("a.log", "file"), ("old logs /b.log", "file"), ("tab.log\t", "file")]
+    yield [(" lead.log", "file"), ("trail.log ", "file")]
     # names starting with a dot
     yield [(".h.log", "file"), ("a.log", "file")]
     yield [("a.log", "file"), (".hd/a.log", "file"), ("sub/.h2.log", "file"), ("sub/b.log", "file")]
